@@ -145,6 +145,13 @@ theorem encodeXterm_core_of_lt (u : Uni) (k : Key) (pam ckm : Bool) (h : k.keyco
   unfold encodeXterm keypadLegend
   simp only [h1, h2, ite_self, Option.getD_none]
 
+/-- A key that is in neither keypad table (`KeyKeyPadBegin` is one: it has reports of its own) is encoded by the core. -/
+theorem encodeXterm_core_of_not_keypad (u : Uni) (k : Key) (pam ckm : Bool)
+    (h1 : lookup k.keycode keypadApplicationMode = none) (h2 : lookup k.keycode keypadNumericMode = none) :
+    encodeXterm u k pam ckm = encodeXtermCore u k pam ckm := by
+  unfold encodeXterm keypadLegend
+  simp only [h1, h2, ite_self, Option.getD_none]
+
 theorem maxRune_lt_keypad : maxRune < KeyKeyPad0 := by decide
 
 end VaxisModel.Lemmas.TermInput
